@@ -232,6 +232,11 @@ def serve (r : Req) : Obs :=
         | none => reject r
         | some p' => if p = p' then { ran := true, status := 200, www := none, user := u } else reject r
 
+/-- the whole middleware: `cfg.skipPaths[c.Request.URL.Path]` (exact match on the path as the request
+    carries it — no cleaning, no decoding beyond what `net/url` did) exempts the request -/
+def gate (skip : Bool) (r : Req) : Obs :=
+  if skip then { ran := true, status := 200, www := none, user := [] } else serve r
+
 end Auth
 
 /-! ## cors -/
